@@ -1,7 +1,136 @@
-/- C09 — property theorems (only). -/
-import XsdataModel.Bind.Parse
+/- C09 — parsing depends only on the XML infoset: property theorems (only).
+
+The parser model (`Xs.Bind.parseRoot` / `parseNode`) consumes the infoset
+`Tree` (qualified names in Clark form, attribute list, in-scope prefix map,
+merged character data).  Comments, processing instructions, CDATA sections,
+character references, encodings, attribute quoting, empty-element tags and
+XInclude are resolved by the tokenisers *before* this interface; they are
+invisible to the model by construction and are covered by the byte-level
+correspondence of `harness/props/c09.py` only.  What can be proved here is
+independence from attribute order, ignorable white space, padding of
+non-string values and the prefix maps. -/
+import XsdataModel.Proofs.C09Strip
+import XsdataModel.Proofs.C09Ws
+import XsdataModel.Proofs.C09Data
 
 namespace Props.C09
-open Py Xs.Bind
+open Py Xs.Bind Proofs.C09
+
+/-! ## 2. ignorable white space -/
+
+/-- element-only content: the class has no text field and no wildcard field -/
+def elementOnly (m : XmlMeta) : Bool := m.text.isNone && m.wildcards.isEmpty
+
+/-- **ws_invariant**: an element bound to a class with element-only content is parsed to
+the same result whatever its own character data `t` is, and whatever the tails of its
+children (and its own tail) are *within* `normalize_content` — absent, empty and
+white-space-only tails are interchangeable.  (`KidsEq`: same children, tails equal after
+`normalizeContent`.) -/
+theorem ws_invariant (e : BEnv) (Γ : Ctx) (cfg : ParserConfig) (m : XmlMeta) (hm : elementOnly m = true)
+    (ats ns d xt xn q a n) (t t' : Option Str) (kids kids' : List Tree) (tl tl' : Option Str)
+    (hk : KidsEq e.py kids kids') (htl : normalizeContent e.py tl = normalizeContent e.py tl') :
+    parseNode e Γ cfg (.element m ats ns d xt xn) (.node q a n t kids tl) =
+    parseNode e Γ cfg (.element m ats ns d xt xn) (.node q a n t' kids' tl') := by
+  have hm' : m.text = none ∧ m.wildcards = [] := by
+    simpa [elementOnly, Option.isNone_iff_eq_none, List.isEmpty_iff] using hm
+  rw [parseNode_element_text e Γ cfg m hm'.1 hm'.2 ats ns d xt xn q a n kids tl t t',
+      parseNode_tail e Γ cfg _ q a n t' kids tl tl' htl]
+  simp only [parseNode, parseKids_tailEq e Γ cfg m none kids kids' hk]
+
+/-- indentation: `ws₀` becomes the text of the element, every child without significant
+tail gets the tail `ws` -/
+def indentKid (e : Env) (ws : Str) : Tree → Tree
+  | .node q a n t c tl => .node q a n t c (if (normalizeContent e tl).isNone then some ws else tl)
+
+def indent (e : Env) (ws₀ ws : Str) : Tree → Tree
+  | .node q a n _ c tl => .node q a n (some ws₀) (c.map (indentKid e ws)) tl
+
+theorem kidsEq_indent (e : Env) (ws : Str) (hws : e.strip ws = []) :
+    ∀ kids : List Tree, KidsEq e kids (kids.map (indentKid e ws))
+  | [] => .nil
+  | .node q a n t c tl :: rest => by
+    refine .cons ?_ (kidsEq_indent e ws hws rest)
+    refine .mk q a n t c tl _ ?_
+    cases h : normalizeContent e tl with
+    | none => simp [normalizeContent_ws e ws hws]
+    | some s => simp [h]
+
+/-- **indent_invariant**: pretty-printing an element with element-only content (any text
+`ws₀` before the first child, white space `ws` after every child) does not change the
+result, for every environment's notion of white space. -/
+theorem indent_invariant (e : BEnv) (Γ : Ctx) (cfg : ParserConfig) (m : XmlMeta) (hm : elementOnly m = true)
+    (ats ns d xt xn) (ws₀ ws : Str) (hws : e.py.strip ws = []) (t : Tree) :
+    parseNode e Γ cfg (.element m ats ns d xt xn) (indent e.py ws₀ ws t) =
+    parseNode e Γ cfg (.element m ats ns d xt xn) t := by
+  cases t with
+  | node q a n t c tl =>
+    exact (ws_invariant e Γ cfg m hm ats ns d xt xn q a n t (some ws₀) c _ tl tl
+      (kidsEq_indent e.py ws hws c) rfl).symm
+
+/-- the tail of *any* kind of node only matters up to `normalize_content` -/
+theorem tail_ws_invariant (e : BEnv) (Γ : Ctx) (cfg : ParserConfig) (node : Node) (q a n t c) (tl tl' : Option Str)
+    (h : normalizeContent e.py tl = normalizeContent e.py tl') :
+    parseNode e Γ cfg node (.node q a n t c tl) = parseNode e Γ cfg node (.node q a n t c tl') :=
+  parseNode_tail e Γ cfg node q a n t c tl tl' h
+
+-- non-vacuity: the class `Plain` of `Proofs.C09.Data` has element-only content, "\n  " is white space,
+-- and the indented document parses to a proper object
+example : elementOnly Data.plainMeta = true := by decide
+example : Data.benv.py.strip "\n  ".toList = [] := by decide
+example : Data.primOf (parseRoot Data.benv Data.ctx {} "Plain".toList Data.plainDocPretty) "y" = some (.bool true) := by
+  decide
+
+/-! ## 3. surrounding white space of non-string values -/
+
+/-- **value_ws_invariant**: for every environment, padding the lexical value with white
+space (`str.isspace` characters of that environment) does not change what
+`converter.deserialize` returns when every candidate type is int, bool or QName
+(`strips`: every type except `str`/`object`). -/
+theorem value_ws_invariant (e : BEnv) (l s r : Str) (ts : List TypeRef) (n : NsMap) (ht : ts.all strips = true)
+    (hl : allSpace e.py l = true) (hr : allSpace e.py r = true) :
+    deserialize e (l ++ s ++ r) ts n = deserialize e s ts n :=
+  deserialize_pad e l s r ts n ht hl hr
+
+/-- the conversion of `s` for `var` succeeds (no ConverterWarning) -/
+def converts (e : BEnv) (var : VarCore) (s : Str) (n : NsMap) : Bool :=
+  if var.tokens then ((pySplitWs e.py s).mapM (fun t => deserialize e t var.types n)).isSome
+  else (deserialize e s var.types n).isSome
+
+/-- **parseVar_ws_invariant**: `ParserUtils.parse_var` on a padded value: same result for
+a token list of any type and for non-string types, as long as the value converts (on
+failure the raw string, padding included, is kept with a warning — or a ParserError is
+raised, in which case the two agree again). -/
+theorem parseVar_ws_invariant (e : BEnv) (cfg : ParserConfig) (var : VarCore) (l s r : Str) (n : NsMap)
+    (ht : var.tokens = true ∨ var.types.all strips = true)
+    (hc : converts e var s n = true ∨ cfg.failOnConverterWarnings = true)
+    (hl : allSpace e.py l = true) (hr : allSpace e.py r = true) :
+    parseVar e cfg var (some (l ++ s ++ r)) n = parseVar e cfg var (some s) n := by
+  unfold parseVar
+  simp only [Option.getD_none]
+  by_cases htok : var.tokens = true
+  · simp only [htok, if_true, pySplitWs_pad e.py l s r hl hr]
+    rcases hc with hc | hc
+    · simp only [converts, htok, if_true] at hc
+      cases hm : (pySplitWs e.py s).mapM (fun t => deserialize e t var.types n) with
+      | none => simp [hm] at hc
+      | some vs => rfl
+    · simp [hc]
+  · have hs : var.types.all strips = true := by
+      rcases ht with h | h
+      · exact absurd h htok
+      · exact h
+    simp only [htok, deserialize_pad e l s r var.types n hs hl hr]
+    rcases hc with hc | hc
+    · simp only [converts, htok] at hc
+      cases hm : deserialize e s var.types n with
+      | none => simp [hm] at hc
+      | some v => rfl
+    · simp [hc]
+
+-- non-vacuity
+example : allSpace Data.benv.py [' ', '\n', '\t'] = true := by decide
+example : [TypeRef.prim .int, .prim .bool].all strips = true := by decide
+example : deserialize Data.benv (" \n".toList ++ "42".toList ++ "\t".toList) [.prim .int] [] = some (.int 42) := by decide
+example : converts Data.benv Data.vA.toVarCore "42".toList [] = true := by decide
 
 end Props.C09
